@@ -24,17 +24,17 @@ def check(tier, vseed, args):
             continue
         with open(os.path.join(core.VERIF_DIR, kf["replay"])) as f:
             rp = json.load(f)
-        rep = c11.failing(rp["spec"], rp["job"], include_known=True)
+        rep = c11.failing(rp["spec"], rp.get("jobs") or [rp["job"]], include_known=True)
         kf_info.append({"id": kf["id"], "status": kf["status"], "still_fails": bool(rep)})
         if kf["status"] == "open":
             if rep and rep.get("kf") == kf["id"]:
                 known.append(f"KNOWN-FINDING: property={PROP} id={kf['id']} {kf['summary']}")
             elif rep:
-                violations.append(_report(rp["spec"], rp["job"], rep, vseed, f"known-{kf['id']}",
-                                          tier, minimise=False))
+                violations.append(_report(rp["spec"], rp.get("jobs") or [rp["job"]], rep, vseed,
+                                          f"known-{kf['id']}", tier, minimise=False))
         elif rep:  # fixed entries suppress nothing: regression must pass
-            violations.append(_report(rp["spec"], rp["job"], rep, vseed, f"regress-{kf['id']}",
-                                      tier, minimise=False))
+            violations.append(_report(rp["spec"], rp.get("jobs") or [rp["job"]], rep, vseed,
+                                      f"regress-{kf['id']}", tier, minimise=False))
 
     def do_run(idx):
         return c11.one_run(vseed, idx, tier)
@@ -63,7 +63,7 @@ def check(tier, vseed, args):
         if cls in seen or len(violations) >= 3:
             continue
         seen.add(cls)
-        violations.append(_report(v["spec"], v["job"], v["report"], vseed, idx, tier))
+        violations.append(_report(v["spec"], v["jobs"], v["report"], vseed, idx, tier))
     parses = stats.c.get("parses", 0)
     evidence = {
         "property_id": PROP,
@@ -95,6 +95,7 @@ def check(tier, vseed, args):
             "skipped_baseline_does_not_terminate": stats.c.get("skipped_baseline_budget", 0),
             "skipped_driver_loop_outside_recovery": stats.c.get(
                 "skipped_driver_loop_outside_recovery", 0),
+            "reuse_mode": stats.group("reuse."),
             "glr_multi_head_recoveries": stats.c.get("glr_multi_head_recoveries", 0),
             "violations_attributed_to_known_findings": stats.group("attributed."),
             "known_findings": kf_info,
@@ -118,30 +119,33 @@ def check(tier, vseed, args):
             "harness_problems": harness}
 
 
-def _report(spec, job, rep, vseed, idx, tier, minimise=True):
+def _report(spec, jobs, rep, vseed, idx, tier, minimise=True):
     from .main import confirm_replay
 
     budget = 60 if tier == "quick" else 300
-    rp = {"property": PROP, "seed": vseed, "run": idx, "spec": spec, "job": job, "report": rep,
-          "minimised": False}
+    rp = {"property": PROP, "seed": vseed, "run": idx, "spec": spec, "jobs": jobs, "report": rep,
+          "minimised": False,
+          "how": "jobs are the parses of one simulated process in order; the last one fails"}
     m = None
     try:
         if minimise:
-            m = c11.minimise(spec, job, budget)
+            m = c11.minimise(spec, jobs, budget)
     except core.HarnessError:
         m = None
     if m:
-        rp.update(job=m["job"], report=m["report"], minimised=True)
+        rp.update(jobs=m["jobs"], report=m["report"], minimised=True)
     path = core.replay_path(PROP, vseed, idx)
     core.write_json(path, rp)
     ok = confirm_replay(path)
     r = rp["report"]
+    j = rp["jobs"][-1]
     return {"replay": path, "confirmed": ok,
-            "summary": f"{r.get('class')}: {r['probs'][0][:160]} | input={rp['job']['input']!r} "
-                       f"kind={rp['job']['cfg']['kind']} recovery={rp['job']['recovery']} "
-                       f"replay_confirmed={ok}"}
+            "summary": f"{r.get('class')}: {r['probs'][0][:160]} | input={j['input']!r} "
+                       f"kind={j['cfg']['kind']} recovery={j['recovery']} "
+                       f"preceding_parses={len(rp['jobs']) - 1} replay_confirmed={ok}"}
 
 
 def replay(rp):
-    rep = c11.failing(rp["spec"], rp["job"])
-    return bool(rep), {"report": rep}
+    rep = c11.failing(rp["spec"], rp.get("jobs") or [rp["job"]], include_known=True)
+    failed = bool(rep) and not rep.get("kf")
+    return failed, {"report": rep}
